@@ -1,8 +1,223 @@
 import ElvModel.C37.Model
-open Go C37
+import ElvModel.C37.Spec
+import ElvProofs.C37.Core
+import ElvProofs.C37.SpecSound
+open Go C37 C37.Spec
 
+/-!
+# C37 — error positions point at the right lines and columns
+
+All theorems are about the executable model `C37.getContextDetails` (tied to
+`diag.NewContext` by `./check C37`) and are stated against the independent
+spec vocabulary of `ElvModel/C37/Spec.lean` (`newlines`, `lineStart`,
+`lineEnd`, `adjTo`, `sub`), for EVERY source `src : Bytes` and every range
+`0 ≤ f ≤ t ≤ |src|` — unbounded in the source length.  `f.toNat`/`t.toNat`
+are just the offsets as naturals (`0 ≤ f`).
+-/
+
+/-- No slice expression of `getContextDetails` panics for an in-range range. -/
 theorem C37_no_panic (src : Bytes) (f t : Int) (h0 : 0 ≤ f) (h1 : f ≤ t) (h2 : t ≤ src.length) :
     ∃ d, getContextDetails src f t = .ok d := by
   unfold getContextDetails slice
   simp [bind, Res.bind, h0, h1, h2, Int.le_trans h0 h1, Int.le_trans h1 h2]
   exact ⟨_, rfl⟩
+
+example : getContextDetails [97, 10, 98] 1 3 ≠ .panic "slice bounds out of range" := by decide
+/-- outside the precondition the slices do panic (so the hypotheses matter) -/
+example : getContextDetails [97, 10, 98] 2 4 = .panic "slice bounds out of range" := by decide
+
+/-! ## The spec vocabulary means what it says -/
+
+/-- `lineStart s (k+1)` (for a line that exists) lies inside `s`, exactly `k`
+newlines precede it, and for `k > 0` the byte just before it is a newline. -/
+theorem C37_spec_lineStart (s : Bytes) (k : Nat) (h : k ≤ newlines s) :
+    lineStart s (k + 1) ≤ s.length ∧
+    newlines (sub s 0 (lineStart s (k + 1))) = k ∧
+    (0 < k → s[lineStart s (k + 1) - 1]? = some 10) := by
+  simpa [lineStart, sub] using afterNL_spec s k h
+
+/-- `lineEnd s p` is the first offset `≥ p` holding a newline, or `|s|`. -/
+theorem C37_spec_lineEnd (s : Bytes) (p : Nat) (h : p ≤ s.length) :
+    p ≤ lineEnd s p ∧ lineEnd s p ≤ s.length ∧
+    newlines (sub s p (lineEnd s p)) = 0 ∧
+    (lineEnd s p < s.length → s[lineEnd s p]? = some 10) :=
+  lineEnd_spec s p h
+
+example : lineStart [97, 10, 10, 98, 99, 10] 3 = 3 ∧ lineEnd [97, 10, 10, 98, 99, 10] 3 = 5 := by decide
+
+/-! ## Start position -/
+
+/-- The start line is 1 + the number of newlines before `from`, and the start
+column counts bytes from the first byte of that line: line/column identify the
+first byte of the range. -/
+theorem C37_start (src : Bytes) (f t : Int) (h0 : 0 ≤ f) (h1 : f ≤ t) (h2 : t ≤ src.length)
+    (d : Details) (hd : getContextDetails src f t = .ok d) :
+    d.startLine = 1 + newlines (sub src 0 f.toNat) ∧ 1 ≤ d.startCol ∧
+    (lineStart src d.startLine.toNat : Int) + d.startCol - 1 = f := by
+  obtain ⟨before, body0, after, rfl, rfl, rfl, rfl⟩ := transfer src f t h0 h1 h2 d hd
+  have := start_core before body0 after
+  simp only [Int.toNat_natCast]
+  rw [List.append_assoc, sub_prefix, ← List.append_assoc]
+  exact this
+
+/-! ## End position -/
+
+/-- With `t' = to − 1` if the range ends in a newline, else `to`: the end line
+is 1 + the number of newlines before `t'` and `lineStart endLine + endCol = t'`,
+i.e. (line, column) denote byte `t' − 1`, the last counted byte. -/
+theorem C37_end (src : Bytes) (f t : Int) (h0 : 0 ≤ f) (h1 : f ≤ t) (h2 : t ≤ src.length)
+    (d : Details) (hd : getContextDetails src f t = .ok d) :
+    let t' := adjTo src f.toNat t.toNat
+    d.endLine = 1 + newlines (sub src 0 t') ∧ 0 ≤ d.endCol ∧
+    (lineStart src d.endLine.toNat : Int) + d.endCol = t' := by
+  obtain ⟨before, body0, after, rfl, rfl, rfl, rfl⟩ := transfer src f t h0 h1 h2 d hd
+  obtain ⟨_, e1, e2, e3⟩ := end_core before body0 after
+  simp only [Int.toNat_natCast]
+  rw [adjTo_eq, (sub_to_adj before body0 after).1]
+  refine ⟨e1, e2, ?_⟩
+  rw [e3]; simp
+
+/-- Ranges that are empty after the adjustment: same line, `endCol = startCol − 1`. -/
+theorem C37_end_empty (src : Bytes) (f t : Int) (h0 : 0 ≤ f) (h1 : f ≤ t) (h2 : t ≤ src.length)
+    (d : Details) (hd : getContextDetails src f t = .ok d)
+    (he : adjTo src f.toNat t.toNat = f.toNat) :
+    d.endLine = d.startLine ∧ d.endCol = d.startCol - 1 := by
+  obtain ⟨before, body0, after, rfl, rfl, rfl, rfl⟩ := transfer src f t h0 h1 h2 d hd
+  simp only [Int.toNat_natCast] at he
+  rw [adjTo_eq] at he
+  have hnil : (if endsNL body0 then body0.dropLast else body0) = [] :=
+    List.length_eq_zero_iff.mp (by omega)
+  obtain ⟨h1, h2, _⟩ := describe_core before body0 after
+  have := h2.mpr hnil
+  have hec : (detailsOf before body0 after).endCol
+      = if (detailsOf before body0 after).startLine = (detailsOf before body0 after).endLine
+        then (detailsOf before body0 after).startCol + (detailsOf before body0 after).body.length - 1
+        else (lastLine (detailsOf before body0 after).body).length := rfl
+  have hb : (detailsOf before body0 after).body
+      = (if endsNL body0 then body0.dropLast else body0) := (end_core before body0 after).1
+  refine ⟨this.1.symm, ?_⟩
+  rw [hec, if_pos this.1, hb, hnil]; simp
+
+/-- A range whose last counted byte is itself a newline ends at column 0 (of
+the line after that newline). -/
+theorem C37_end_after_newline (src : Bytes) (f t : Int) (h0 : 0 ≤ f) (h1 : f ≤ t)
+    (h2 : t ≤ src.length) (d : Details) (hd : getContextDetails src f t = .ok d)
+    (hn : endsInNL src f.toNat (adjTo src f.toNat t.toNat) = true) :
+    d.endCol = 0 := by
+  obtain ⟨before, body0, after, rfl, rfl, rfl, rfl⟩ := transfer src f t h0 h1 h2 d hd
+  simp only [Int.toNat_natCast] at hn
+  rw [adjTo_eq] at hn
+  apply end_after_newline_core
+  have hpre : ∃ rest, before ++ body0 ++ after
+      = before ++ (if endsNL body0 then body0.dropLast else body0) ++ rest := by
+    rcases endsNL_cases body0 with ⟨h, b, rfl⟩ | h
+    · exact ⟨10 :: after, by simp [h]⟩
+    · exact ⟨after, by simp [h]⟩
+  obtain ⟨rest, hrest⟩ := hpre
+  rw [hrest, endsInNL_eq] at hn
+  exact hn
+
+/-! ## Context text -/
+
+/-- `head ++ body ++ tail` is exactly the source text from the first byte of
+the start line to the end of the line containing the adjusted end `t'` (the
+next newline at or after `t'`, or the end of the source); `body` is the range
+up to `t'`; head and tail contain no newline.  When a trailing newline was
+stripped, the tail is empty and the text ends at `t'` (the stripped newline is
+the line terminator: `lineEnd src t' = t'`). -/
+theorem C37_context (src : Bytes) (f t : Int) (h0 : 0 ≤ f) (h1 : f ≤ t) (h2 : t ≤ src.length)
+    (d : Details) (hd : getContextDetails src f t = .ok d) :
+    let t' := adjTo src f.toNat t.toNat
+    slice src (lineStart src d.startLine.toNat) (lineEnd src t') = .ok (d.head ++ d.body ++ d.tail) ∧
+    d.body = sub src f.toNat t' ∧
+    (∀ x ∈ d.head, x ≠ 10) ∧ (∀ x ∈ d.tail, x ≠ 10) ∧
+    (endsInNL src f.toNat t.toNat = true → d.tail = [] ∧ lineEnd src t' = t') := by
+  obtain ⟨before, body0, after, rfl, rfl, rfl, rfl⟩ := transfer src f t h0 h1 h2 d hd
+  obtain ⟨c1, c2, c3⟩ := context_core before body0 after
+  have hb := (end_core before body0 after).1
+  simp only [Int.toNat_natCast]
+  rw [adjTo_eq, (sub_to_adj before body0 after).2]
+  refine ⟨c1, hb, c2, c3, ?_⟩
+  rw [endsInNL_eq]
+  intro h
+  obtain ⟨_, b, rfl⟩ | h' := endsNL_cases body0
+  · refine ⟨by simp [detailsOf, h], ?_⟩
+    have e : before ++ (b ++ [10]) ++ after = (before ++ b) ++ 10 :: after := by simp
+    have := lineEnd_append (before ++ b) (10 :: after)
+    simp only [List.length_append] at this
+    simp only [h, if_true, List.dropLast_concat]
+    rw [e, this]; simp [lineEnd]
+  · rw [h] at h'; cases h'
+
+/-! ## Range description -/
+
+/-- `describeRange` uses the one-position format `l:c` exactly when the adjusted
+range is empty (then it is on one line), `l:c-c` when the adjusted range is
+non-empty and contains no newline (start and end on one line), and `l:c-l:c`
+otherwise; the numbers are the `Details` fields characterised above. -/
+theorem C37_describe (src : Bytes) (f t : Int) (h0 : 0 ≤ f) (h1 : f ≤ t) (h2 : t ≤ src.length)
+    (d : Details) (hd : getContextDetails src f t = .ok d) :
+    let t' := adjTo src f.toNat t.toNat
+    (d.startLine = d.endLine ↔ newlines (sub src f.toNat t') = 0) ∧
+    ((d.startLine = d.endLine ∧ d.endCol < d.startCol) ↔ t' = f.toNat) ∧
+    describeRange d =
+      if t' = f.toNat then s!"{d.startLine}:{d.startCol}"
+      else if newlines (sub src f.toNat t') = 0 then s!"{d.startLine}:{d.startCol}-{d.endCol}"
+      else s!"{d.startLine}:{d.startCol}-{d.endLine}:{d.endCol}" := by
+  obtain ⟨before, body0, after, rfl, rfl, rfl, rfl⟩ := transfer src f t h0 h1 h2 d hd
+  obtain ⟨d1, d2, d3⟩ := describe_core before body0 after
+  have hsub := (sub_to_adj before body0 after).2
+  simp only [Int.toNat_natCast, adjTo_eq, hsub]
+  have hiff : before.length + (if endsNL body0 then body0.dropLast else body0).length = before.length
+      ↔ (if endsNL body0 then body0.dropLast else body0) = [] := by
+    rw [← List.length_eq_zero_iff]; omega
+  refine ⟨d1, d2.trans hiff.symm, ?_⟩
+  rw [d3]
+  by_cases e : (if endsNL body0 then body0.dropLast else body0) = []
+  · rw [if_pos e, if_pos (hiff.mpr e)]
+  · rw [if_neg e, if_neg (fun x => e (hiff.mp x))]
+
+/-! ## Non-vacuity: concrete multi-line sources, evaluated on the executable model -/
+
+/-- source "ab\ncé\n\nxyz" (11 bytes; é = c3 a9), range [4,9) = "é\n\nx":
+lines 2..4, columns in bytes. -/
+example :
+    getContextDetails [97, 98, 10, 99, 0xc3, 0xa9, 10, 10, 120, 121, 122] 4 9 =
+      .ok { startLine := 2, startCol := 2, endLine := 4, endCol := 1,
+            body := [0xc3, 0xa9, 10, 10, 120], head := [99], tail := [121, 122] } := by decide
+example : lineStart [97, 98, 10, 99, 0xc3, 0xa9, 10, 10, 120, 121, 122] 2 + 2 - 1 = 4 := by decide
+example : adjTo [97, 98, 10, 99, 0xc3, 0xa9, 10, 10, 120, 121, 122] 4 9 = 9 ∧
+    lineStart [97, 98, 10, 99, 0xc3, 0xa9, 10, 10, 120, 121, 122] 4 + 1 = 9 ∧
+    lineEnd [97, 98, 10, 99, 0xc3, 0xa9, 10, 10, 120, 121, 122] 9 = 11 := by decide
+
+/-- same source, range [3,7) = "cé\n": trailing newline stripped, tail empty. -/
+example :
+    getContextDetails [97, 98, 10, 99, 0xc3, 0xa9, 10, 10, 120, 121, 122] 3 7 =
+      .ok { startLine := 2, startCol := 1, endLine := 2, endCol := 3,
+            body := [99, 0xc3, 0xa9], head := [], tail := [] } := by decide
+example : adjTo [97, 98, 10, 99, 0xc3, 0xa9, 10, 10, 120, 121, 122] 3 7 = 6 ∧
+    lineEnd [97, 98, 10, 99, 0xc3, 0xa9, 10, 10, 120, 121, 122] 6 = 6 := by decide
+
+/-- same source, range [6,8) = "\n\n": the last counted byte is a newline ⇒
+end is line 3 column 0. -/
+example :
+    getContextDetails [97, 98, 10, 99, 0xc3, 0xa9, 10, 10, 120, 121, 122] 6 8 =
+      .ok { startLine := 2, startCol := 4, endLine := 3, endCol := 0,
+            body := [10], head := [99, 0xc3, 0xa9], tail := [] } := by decide
+example : endsInNL [97, 98, 10, 99, 0xc3, 0xa9, 10, 10, 120, 121, 122] 6
+    (adjTo [97, 98, 10, 99, 0xc3, 0xa9, 10, 10, 120, 121, 122] 6 8) = true := by decide
+
+/-- same source, range [7,8) = "\n" on the blank line: empty after adjustment ⇒
+`endCol = startCol − 1 = 0`, one-position format. -/
+example :
+    getContextDetails [97, 98, 10, 99, 0xc3, 0xa9, 10, 10, 120, 121, 122] 7 8 =
+      .ok { startLine := 3, startCol := 1, endLine := 3, endCol := 0,
+            body := [], head := [], tail := [] } := by decide
+example : adjTo [97, 98, 10, 99, 0xc3, 0xa9, 10, 10, 120, 121, 122] 7 8 = 7 := by decide
+
+/-- the three formats of `describeRange` all occur. -/
+example :
+    (getContextDetails [97, 98, 10, 99, 100] 4 4).bind (fun d => .ok (describeRange d)) = .ok "2:2" ∧
+    (getContextDetails [97, 98, 10, 99, 100] 3 5).bind (fun d => .ok (describeRange d)) = .ok "2:1-2" ∧
+    (getContextDetails [97, 98, 10, 99, 100] 1 4).bind (fun d => .ok (describeRange d)) = .ok "1:2-2:1" := by
+  decide
